@@ -357,6 +357,18 @@ func C16(p *core.Program, r *core.Report) {
 			}
 		}
 		r.Add("Q3", "Result.PaginationInfo comes from the two finders only", p.Pos(ap.Pos()), okAll && n >= 1, fmt.Sprintf("%d stores", n))
+		// Q4: "same site" is the site of the page URL the caller supplied: both finders are given
+		// Options.OriginalURL itself (not a URL derived from the document)
+		nFind, badArg := 0, ""
+		for _, call := range core.Calls(ap, func(ci ssa.CallInstruction) bool {
+			return core.IsCallTo(ci, "(*"+paginationPkg+".PrevNextFinder).FindPagination", "(*"+paginationPkg+".PageNumberFinder).FindPagination")
+		}) {
+			nFind++
+			if u := c.Of(call.Common().Args[2]); !strings.HasSuffix(u, ".OriginalURL") || !strings.Contains(u, "$1") {
+				badArg = u
+			}
+		}
+		r.Add("Q4", "the pagination finders are given the caller's page URL", p.Pos(ap.Pos()), nFind == 2 && badArg == "", fmt.Sprintf("%d finder calls; other URL: %s", nFind, badArg))
 	}
 	if pf := mustInl(p, r, "Q3", "(*"+paginationPkg+".PrevNextFinder).FindPagination"); pf != nil {
 		for _, ret := range core.Returns(pf) {
